@@ -1,6 +1,9 @@
 package main
 
-import "fmt"
+import (
+	"fmt"
+	"regexp"
+)
 
 func init() {
 	register("C01", "cases: two REAL fbb.Sessions (twin in-memory handlers recording every callback) over an in-memory reliable duplex stream with random read segmentation (1-byte, small, large, unsegmented per direction): 0..12 valid messages each way built through the public API (bodies 1 B..20 KB quick / 60 KB thorough, attachments incl. empty/CRLF/binary, non-ASCII and //WL2K precedence subjects, MIDs of 1..12 alphanumerics), per-MID accept/reject/defer policies, master/slave, MOTD, batched/unbatched handlers. The same scenario runs through the Lean pair model (`pair` op): wire bytes both ways, callbacks (SetSent runs sorted), statistics and error class are diffed. Oracle: the property statement on the recorded callbacks. Non-trivial: at least one message transferred; distinct by case line. GZIP_EXPERIMENT is exercised by the oracle only (not modelled).", func(c *Ctx) {
@@ -12,6 +15,9 @@ func init() {
 				maxMsgs = 12
 			}
 			sa, sb := genScenario(c, maxMsgs, c.Budget(6000, 40000))
+			if i%6 == 4 {
+				blockAlignedPolicies(c, sa, sb)
+			}
 			pr := runPairImpl(sa, sb, c.Rng.Int63(), -1, -1)
 			rep := scenarioReplay(sa, sb, map[string]interface{}{"errA": fmt.Sprint(pr.a.err), "errB": fmt.Sprint(pr.b.err)})
 			if pr.a.hung || pr.b.hung {
@@ -35,4 +41,75 @@ func init() {
 		}
 		c.Compare(cases)
 	})
+}
+
+var fcLine = regexp.MustCompile(`F[CAB] [A-Z]{2} (\S+) \d+ \d+ \d+\r`)
+
+// blockAlignedPolicies rewrites the scenario so that one direction carries 6..14 messages and the receiving handler's
+// answers are drawn per five-proposal BLOCK (the order of the proposals is taken from a probe run in which everything
+// is accepted): a whole block deferred, a whole block rejected, a block of deferrals and rejections only, or a mixed
+// block; a block without any accepted proposal is followed by blocks that the receiver does accept.
+func blockAlignedPolicies(c *Ctx, sa, sb *sessSpec) {
+	r := c.Rng
+	snd, rcv := sa, sb
+	if r.Intn(2) == 0 {
+		snd, rcv = sb, sa
+	}
+	seen := map[string]bool{}
+	for _, o := range snd.outbox {
+		seen[o.mid] = true
+	}
+	for want := 6 + r.Intn(9); len(snd.outbox) < want; {
+		m := genMessage(r, snd.mycall, rcv.mycall, 1+r.Intn(400))
+		if seen[m.MID()] {
+			continue
+		}
+		seen[m.MID()] = true
+		snd.outbox = append(snd.outbox, newOutMsg(m))
+	}
+	saved := rcv.policy
+	rcv.policy = map[string]byte{}
+	for m, a := range saved {
+		if !seen[m] {
+			rcv.policy[m] = a
+		}
+	}
+	probe := runPairImpl(sa, sb, r.Int63(), -1, -1)
+	wire := probe.a.wire
+	if snd == sb {
+		wire = probe.b.wire
+	}
+	var order []string
+	proposed := map[string]bool{}
+	for _, m := range fcLine.FindAllSubmatch(wire, -1) {
+		// (a block of proposals that follows a transfer starts right behind the transfer's last byte)
+		if mid := string(m[1]); seen[mid] && !proposed[mid] {
+			proposed[mid] = true
+			order = append(order, mid)
+		}
+	}
+	if len(order) != len(snd.outbox) {
+		c.Violate("C01:probe-proposals", fmt.Sprintf("the all-accepting probe run proposed %d of %d queued messages", len(order), len(snd.outbox)), scenarioReplay(sa, sb, nil))
+		return
+	}
+	for b := 0; b*5 < len(order); b++ {
+		kind := r.Intn(5)
+		if b == 0 && r.Intn(2) == 0 {
+			kind = r.Intn(3) // no accepted proposal in the first block
+		}
+		for k := b * 5; k < b*5+5 && k < len(order); k++ {
+			switch kind {
+			case 0:
+				rcv.policy[order[k]] = '='
+			case 1:
+				rcv.policy[order[k]] = '-'
+			case 2:
+				rcv.policy[order[k]] = "=-"[r.Intn(2)]
+			case 3:
+				if a := "+=-"[r.Intn(3)]; a != '+' {
+					rcv.policy[order[k]] = a
+				}
+			}
+		}
+	}
 }
